@@ -60,7 +60,7 @@ def run_poly(cases, refs, jobs=16):
 
 def run(ctx, A, rng, refs, clauses=CLAUSES, n=None):
     thorough = ctx.tier == "thorough"
-    cases = poly_inputs(rng, refs, n or (160 if thorough else 36))
+    cases = poly_inputs(rng, refs, n or (400 if thorough else 110))
     results = run_poly(cases, refs)
     for fam, pinp, events in results:
         ctx.nontrivial.add(("poly", fam, pinp))
